@@ -44,6 +44,8 @@ def run(R):
         r4(R)
     if R.want("C02.R5"):
         r5(R)
+    if R.want("C02.R7"):
+        r7(R)
 
 
 def col(name, n=3):
@@ -224,3 +226,38 @@ def r5(R):
         rets = [r for r in ast.walk(fn) if isinstance(r, ast.Return)]
         R.check(len(rets) == 1 and isinstance(rets[0].value, ast.Tuple) and src(rets[0].value.elts[-1]) == mask.id, "C02.R5", GVG, fn.lineno, "g_to_k",
                 "the mask is returned as the third result", "the returned validity is not the mask that gated arcsin")
+
+
+def r7(R):
+    R.rule("C02.R7", "compute_xyz_from_tth_eta (ray / detector-plane intersection): a projected position is replaced by the 'no intersection' "
+                     "value only where the ray is parallel to the detector plane (divisor == 0); the sign of the divisor carries no "
+                     "meaning (it flips with the handedness of the detector axes), so no other test of it may mask peaks")
+    from rules import c01
+    m = pyfacts.module(R, c01.TR)
+    fn = m.nfunc("compute_xyz_from_tth_eta")
+    params = tuple(a.arg for a in fn.args.args)
+    divs = [d for d in ast.walk(fn) if isinstance(d, ast.BinOp) and isinstance(d.op, ast.Div) and isinstance(d.right, ast.Name)]
+    R.shape(len(divs) >= 2 and len(set(d.right.id for d in divs)) == 1, "C02.R7", c01.TR, "compute_xyz_from_tth_eta", "the divisions by the ray . detector-normal product")
+    N = divs[0].right.id
+    # every selection that replaces a result, and every in-place patch of the divisor, is driven by a mask: find them
+    uses = []
+    for c in ast.walk(fn):
+        if isinstance(c, ast.Call) and (pyfacts.dotted(c.func) or "").split(".")[-1] == "where" and len(c.args) == 3:
+            uses.append((c, c.args[0]))
+    for a_ in ast.walk(fn):
+        if isinstance(a_, ast.AugAssign) and isinstance(a_.target, ast.Name) and a_.target.id == N:
+            uses.append((a_, a_.value))
+    R.shape(len(uses) >= 1, "C02.R7", c01.TR, "compute_xyz_from_tth_eta", "the mask that guards the division (np.where(mask, ...) / %s += mask)" % N)
+    for node, mk in uses:
+        d = pyfacts.resolved(fn, mk, 3, keep=params + (N,))
+        cn = pyfacts.cmp_norm(d)
+        okm = cn is not None and cn[0] == "Eq" and set(cn[1:]) in ({N, "0"}, {N, "0.0"}, {N, "0."})
+        if not okm and isinstance(d, ast.Compare) and len(d.ops) == 1 and isinstance(d.ops[0], (ast.Lt, ast.LtE)):
+            # |norm| < tiny  is an acceptable spelling of 'parallel'
+            l_ = d.left
+            okm = isinstance(l_, ast.Call) and (pyfacts.dotted(l_.func) or "").split(".")[-1] in ("abs", "fabs", "absolute") and src(l_.args[0]) == N \
+                and isinstance(d.comparators[0], ast.Constant) and isinstance(d.comparators[0].value, float) and d.comparators[0].value < 1e-6
+        R.check(okm, "C02.R7", c01.TR, node.lineno, "compute_xyz_from_tth_eta", "mask %s selects exactly %s == 0" % (src(d)[:50], N),
+                "peaks are masked by a test of the divisor other than '== 0': for detector flips / pixel-size signs that reverse the "
+                "computed normal every forward-scattered ray has a negative product and would be sent to pixel (0, 0), so the projection "
+                "no longer inverts compute_tth_eta")
